@@ -10,6 +10,9 @@ import (
 
 var modBaseTime = time.Date(2019, 1, 1, 12, 0, 0, 0, time.UTC)
 
+// modTimeProbeName is the scratch file modTimeResolution creates (and removes).
+const modTimeProbeName = ".modtime-resolution"
+
 type modTimeCalc func() (time.Duration, error)
 
 func modTimeFsCalc(fs afero.Fs) modTimeCalc {
@@ -21,7 +24,7 @@ func modTimeFsCalc(fs afero.Fs) modTimeCalc {
 // modTimeResolution returns a best-effort guess at the resolution of the file
 // modification time for a given afero.Fs.
 func modTimeResolution(fs afero.Fs) (dur time.Duration, rerr error) {
-	name := ".modtime-resolution"
+	name := modTimeProbeName
 	tf, err := fs.OpenFile(name, os.O_CREATE|os.O_TRUNC|os.O_WRONLY, 0666)
 	if err != nil {
 		return 0, err
